@@ -12,7 +12,9 @@ import (
 
 func (p *Program) suspend() {
 	if err := p.ReleaseTerminal(); err != nil {
-		// If we can't release input, abort.
+		// If we can't release input, abort, taking back what has been
+		// released so far (see exec).
+		_ = p.RestoreTerminal()
 		return
 	}
 
